@@ -1,6 +1,7 @@
 package main
 
 import (
+	"strconv"
 	"encoding/json"
 	"fmt"
 	"math"
@@ -457,6 +458,64 @@ func solveAll(e *Exec, res *HarnessResult, prop string, timeoutS int, meta *Harn
 				if !meta.Conc && !g.noReplay && meta.Opts["noreplay"] == "" && os.Getenv("VERIF_NOREPLAY") == "" {
 					rep = nativeReplay(prop, meta, dir)
 				}
+				if rep == "not-reproduced" && (e.fpUF || e.fpRelaxed) {
+					// the counterexample comes from an abstraction of float arithmetic: the concrete instance the
+					// solver happened to pick may be degenerate natively (e.g. a factor 0 hides a wrong index).
+					// Ask for other instances: first one whose integer inputs avoid 0 and 1, then a few more with
+					// the earlier integer assignments blocked; report only what reproduces.
+					var ints []*Term
+					intName := map[*Term]string{}
+					for name, ty := range e.nondetTy {
+						if v := e.nondets[name]; v != nil && (strings.HasPrefix(ty, "int") || strings.HasPrefix(ty, "uint")) && (v.Sort.K == SInt || v.Sort.K == SBV) {
+							ints = append(ints, v)
+							intName[v] = name
+						}
+					}
+					sort.Slice(ints, func(i, j int) bool { return ints[i].ID < ints[j].ID })
+					konst := func(v *Term, k int64) *Term {
+						if v.Sort.K == SInt {
+							return IntConst(k)
+						}
+						return BVConst(uint64(k), v.Sort.W)
+					}
+					var blocked []*Term
+					for attempt := 0; attempt < 6 && rep == "not-reproduced"; attempt++ {
+						extra := append([]*Term(nil), blocked...)
+						if attempt == 0 {
+							for _, v := range ints {
+								extra = append(extra, Not(Eq(v, konst(v, 0))), Not(Eq(v, konst(v, 1))))
+							}
+						}
+						r2 := e.decide(append(append([]*Term{q}, extra...), axioms...), timeoutS, meta.Solver, "", true)
+						if r2.res != "sat" || r2.model == nil {
+							if attempt == 0 {
+								continue
+							}
+							break
+						}
+						writeModel(dir, res.Harness, g.id, g.kind, g.site, r2.model, e)
+						rep2 := nativeReplay(prop, meta, dir)
+						res.Replays++
+						if rep2 == "reproduced" {
+							rep, model = rep2, r2.model
+							or.Model = model
+							break
+						}
+						// block this integer assignment
+						var diff []*Term
+						for _, v := range ints {
+							if raw, ok := r2.model[intName[v]]; ok {
+								if c := modelConst(v, raw); c != nil {
+									diff = append(diff, Not(Eq(v, c)))
+								}
+							}
+						}
+						if len(diff) == 0 {
+							break
+						}
+						blocked = append(blocked, Or(diff...))
+					}
+				}
 				or.Replayed = rep
 				if rep == "reproduced" || rep == "not-reproduced" {
 					res.Replays++
@@ -623,4 +682,36 @@ func TestVerifReplay(t *testing.T) {
 		return "not-reproduced"
 	}
 	return "error"
+}
+
+// modelConst turns the SMT text of a model value into a constant of the variable's sort (nil if not understood).
+func modelConst(v *Term, raw string) *Term {
+	raw = strings.TrimSpace(raw)
+	switch v.Sort.K {
+	case SBV:
+		if strings.HasPrefix(raw, "#x") {
+			if u, err := strconv.ParseUint(raw[2:], 16, 64); err == nil {
+				return BVConst(u, v.Sort.W)
+			}
+		}
+		if strings.HasPrefix(raw, "#b") {
+			if u, err := strconv.ParseUint(raw[2:], 2, 64); err == nil {
+				return BVConst(u, v.Sort.W)
+			}
+		}
+	case SInt:
+		neg := false
+		t := raw
+		if strings.HasPrefix(t, "(-") {
+			neg = true
+			t = strings.TrimSpace(strings.TrimSuffix(strings.TrimPrefix(t, "(-"), ")"))
+		}
+		if n, err := strconv.ParseInt(t, 10, 64); err == nil {
+			if neg {
+				n = -n
+			}
+			return IntConst(n)
+		}
+	}
+	return nil
 }
